@@ -209,6 +209,30 @@ func init() {
 				}
 				return
 			}
+			var fu struct {
+				First  bool   `json:"concurrent_first_use"`
+				Cached bool   `json:"cached"`
+				Par    int    `json:"goroutines"`
+				Seed   uint64 `json:"seed"`
+			}
+			if json.Unmarshal(ctx.Replay, &fu) == nil && fu.First {
+				ctx.Case(fu, "", "concurrent-first-use-of-one-gauge", "")
+				for k := 0; k < 20; k++ {
+					if f := c02FirstUse(fu.Cached, 400, fu.Par, fu.Seed+uint64(k)); f != "" {
+						ctx.Fail("delivered_values_are_updates_and_fresh", f, fu, nil)
+						return
+					}
+				}
+				return
+			}
+			var cy c02CycleCase
+			if json.Unmarshal(ctx.Replay, &cy) == nil && cy.Cycle {
+				ctx.Case(cy, "", "close-and-reobtain-cycles", "")
+				if f := c02Cycle(&cy); f != "" {
+					ctx.Fail("delivered_values_are_updates_and_fresh", f, cy, nil)
+				}
+				return
+			}
 			var c c02Case
 			if err := json.Unmarshal(ctx.Replay, &c); err != nil {
 				fatal(err)
@@ -304,6 +328,24 @@ func init() {
 			ctx.Case(cs, "", "updates-through-handles-of-dropped-scopes", "")
 			if f := c02Stale(k%2 == 1, 40); f != "" {
 				ctx.Fail("delivered_values_are_updates_and_fresh", f, cs, nil)
+			}
+		}
+		// goroutines obtaining the same new gauge at the same moment share one gauge
+		for k, nk := 0, ctx.N(4, 40); k < nk; k++ {
+			cs := map[string]interface{}{"concurrent_first_use": true, "cached": k%2 == 1, "goroutines": 2 + k%3*2, "seed": ctx.R.U64() >> 1}
+			ctx.Case(cs, "", "concurrent-first-use-of-one-gauge", "")
+			if f := c02FirstUse(k%2 == 1, 400, 2+k%3*2, cs["seed"].(uint64)); f != "" {
+				ctx.Fail("delivered_values_are_updates_and_fresh", f, cs, nil)
+				break
+			}
+		}
+		// subscopes obtained through spellings that one sanitizer merges, closed and obtained again
+		for k, nk := 0, ctx.N(400, 6000); k < nk; k++ {
+			cy := c02GenCycle(ctx.R)
+			ctx.Case(cy, "", "close-and-reobtain-cycles", "")
+			if f := c02Cycle(&cy); f != "" {
+				ctx.Fail("delivered_values_are_updates_and_fresh", f, cy, nil)
+				break
 			}
 		}
 		// a gauge is being registered in the same scope (the first-use call holds the scope's gauge lock
